@@ -253,6 +253,17 @@ func vC01EndToEnd(sizes []int, resumeMode int) {
 func H_C04_endtoend()      { vC04EndToEnd([]int{5}, false) }
 func H_C04_endtoend_deep() { vC04EndToEnd([]int{5, 8, 9}, false) }
 
+// H_C04_endtoend_tail: as H_C04_endtoend with two data streams and a verification tail of one chunk (the
+// sender re-sends the chunk before the verification point: duplicates that can arrive on the other stream
+// while the file completes).
+func H_C04_endtoend_tail() {
+	vC04Streams, vC04Tail = 2, 1
+	vC04EndToEnd([]int{9}, false)
+	vC04Streams, vC04Tail = 1, 0
+}
+
+var vC04Streams, vC04Tail = 1, 0
+
 // H_C06_repair: the same second run, where the highest chunk the metadata marks is damaged on disk.
 func H_C06_repair()      { vC04EndToEnd([]int{5}, true) }
 func H_C06_repair_deep() { vC04EndToEnd([]int{5, 8, 9}, true) }
@@ -314,7 +325,7 @@ func vC04EndToEnd(sizes []int, tornLastChunk bool) {
 	var sendErr error
 	done := make(chan struct{})
 	go func() {
-		sendErr = SendManifestMultiStream(vContext("sctx", false), a, dir+"/src", m, Options{ChunkSize: 4, ParallelFiles: 1, Resume: true, ResumeVerify: "last"})
+		sendErr = SendManifestMultiStream(vContext("sctx", false), a, dir+"/src", m, Options{ChunkSize: 4, ParallelFiles: vC04Streams, Resume: true, ResumeVerify: "last", ResumeVerifyTail: uint32(vC04Tail)})
 		close(done)
 	}()
 	_, recvErr := RecvManifestMultiStream(vContext("rctx", false), b, out, Options{NoRootDir: true, Resume: true, ResumeVerify: "last"})
